@@ -1,5 +1,8 @@
 mod args;
 mod codec;
+mod identc;
+mod retain;
+mod table;
 
 use serde_json::json;
 
@@ -9,6 +12,9 @@ fn main() {
     let start = std::time::Instant::now();
     let rep = match a.cmd.as_str() {
         "codec" => codec::run(&a),
+        "retain" => retain::run(&a),
+        "table" => table::run(&a),
+        "ident" => identc::run(&a),
         other => {
             eprintln!("unknown subcommand {}", other);
             std::process::exit(64);
